@@ -1,6 +1,7 @@
 ------------------------------------- MODULE Cli -------------------------------------
 (***************************************************************************)
-(* C19 (command-line half): `sudachi [-m MODE] [-a] [-w] [--split-sentences=yes|no]`    *)
+(* C19 (command-line half): `sudachi [-m MODE] [-a] [-w] [--split-sentences=yes|no|only]` *)
+(* reading standard input or a file, writing standard output or a file (-o),            *)
 (* as a stream processor (sudachi-cli/src/main.rs main loop, analysis.rs, output.rs).   *)
 (*                                                                         *)
 (* The input is a sequence of code points.  One step takes the next LINE off the input  *)
@@ -62,7 +63,13 @@ Format(args, ms) == IF args.wakati THEN Wakati(ms) ELSE Simple(ms, args.all)
 RECURSIVE Sentences(_, _, _, _)
 Sentences(ss, args, libTok, k) == IF k > Len(ss) THEN <<>> ELSE Format(args, libTok[<<ss[k], args.mode>>].ms) \o Sentences(ss, args, libTok, k + 1)
 
+\* --split-sentences=only: the sentences of the line are written one after the other, nothing between or after them
+\* (analysis.rs SplitSentencesOnly::analyze writes the bytes of every sentence and no separator)
+RECURSIVE Flatten(_)
+Flatten(ss) == IF ss = <<>> THEN <<>> ELSE ss[1] \o Flatten(Tail(ss))
+
 Analyse(line, args, libSent, libTok) ==
+  IF args.only THEN Flatten(libSent[line]) ELSE
   IF args.split THEN Sentences(libSent[line], args, libTok, 1)     \* no sentence (an empty line): nothing is written
                 ELSE Format(args, libTok[<<line, args.mode>>].ms)
 
